@@ -393,7 +393,7 @@ Theorem duration_session cf now initres evs d inits gs st :
   sc_test cf = true -> sc_chunked cf = false -> tabs_ok cf -> avail_total cf ->
   forallb (fun i => nth i initres true) (seq 0 (length (sc_reps cf))) = true ->
   let k := d * 1000 / sc_segDurMS cf in
-  let first := findLastSegNr cf now + 1 in
+  let first := firstNr cf now in
   0 <= first ->
   Forall is_fire evs -> k < lenZ evs ->
   session cf now initres evs = (inits, gs, st) ->
@@ -552,11 +552,11 @@ Proof.
   rewrite (wrapDur_eq r loopMS W). unfold E. f_equal. lia.
 Qed.
 
-Lemma exact_on_time reps r loopMS segDur c timeline test dur chunked cc atoMS :
+Lemma exact_on_time reps r loopMS segDur c timeline test dur chunked cc ff atoMS :
   wf r loopMS -> startNr c = 0 -> ato c = Some atoMS -> 0 <= atoMS ->
   avail_on_time {| sc_reps := reps; sc_ref := r; sc_loopMS := loopMS; sc_segDurMS := segDur; sc_cfg := c;
                    sc_timeline := timeline; sc_test := test; sc_dur := dur; sc_chunked := chunked;
-                   sc_catchup_checks := cc; sc_avail := availMS_exact r loopMS c |}.
+                   sc_catchup_checks := cc; sc_first_fix := ff; sc_avail := availMS_exact r loopMS c |}.
 Proof.
   intros W Hs Hato Hpos n a Hn Ha. cbn [sc_avail sc_ref sc_cfg] in *. unfold availMS_exact in Ha.
   rewrite (availTicks_spec r loopMS c n W Hs) in Ha by lia. cbn [bind] in Ha. rewrite Hato in Ha.
@@ -654,7 +654,7 @@ Theorem session_order cf now initres evs inits gs st :
   inits = repIdxs cf /\
   numbered cf (nextNr (snd (start cf now initres))) gs /\
   (ph (snd (start cf now initres)) = PRunning ->
-   nextNr (snd (start cf now initres)) = findLastSegNr cf now + 1).
+   nextNr (snd (start cf now initres)) = firstNr cf now).
 Proof.
   unfold session. intros H.
   assert (Hi : fst (start cf now initres) = repIdxs cf).
@@ -803,7 +803,7 @@ Theorem duration_session_any cf now initres evs d inits gs st :
   sc_chunked cf = false -> tabs_ok cf -> avail_total cf ->
   forallb (fun i => nth i initres true) (seq 0 (length (sc_reps cf))) = true ->
   let k := d * 1000 / sc_segDurMS cf in
-  let first := findLastSegNr cf now + 1 in
+  let first := firstNr cf now in
   0 <= first ->
   Forall is_fire evs -> k < lenZ evs ->
   session cf now initres evs = (inits, gs, st) ->
@@ -834,3 +834,22 @@ Proof.
   unfold session_c, start_cancelled. intros H. rewrite run_dead in H by (cbn; discriminate).
   inversion H; subst. repeat split; reflexivity.
 Qed.
+
+(** * The first number *)
+Lemma firstNr_pinned cf now : sc_first_fix cf = false -> firstNr cf now = findLastSegNr cf now + 1.
+Proof. intros H. unfold firstNr. now rewrite H. Qed.
+
+Lemma firstNr_repaired cf now : sc_first_fix cf = true ->
+  firstNr cf now = Z.max (findLastSegNr cf now) (-1) + 1 + startNr (sc_cfg cf).
+Proof. intros H. unfold firstNr. now rewrite H. Qed.
+
+(** With the proposed repair (proposed_fixes/C16-first-number.diff) the scenarios of
+    [startnr_witness] and of a session created before the first segment is complete: start number 3,
+    live edge 7 -> first number 8 at its availability time; empty timeline -> number 0 first. *)
+Lemma first_number_repaired_witness :
+  let c := {| startS := 0; startNr := 3; tsbdS := 60; ato := Some 0 |} in
+  let cf := mk_scfg_rcf RCeil true true [ {| ir_kind := RVideo; ir_tab := Some rep2s |} ] rep2s 8000 2000 c false true None false in
+  let cf0 := mk_scfg_rcf RCeil true true [ {| ir_kind := RVideo; ir_tab := Some rep2s |} ] rep2s 8000 2000 cfg0 false true None false in
+  (let '(_, gs, _) := session cf 10000 [] [trig] in map (map (fun m => (mp_nr m, mp_now m, mp_ok m))) gs = [[(8, 12000, true)]]) /\
+  (let '(_, gs, _) := session cf0 1000 [] [trig; trig] in map (map (fun m => (mp_nr m, mp_now m, mp_ok m))) gs = [[(0, 2000, true)]; [(1, 4000, true)]]).
+Proof. vm_compute. split; reflexivity. Qed.
